@@ -17,9 +17,13 @@ outcomes `os`; `stepwise` checks a whole observed run against it, call by call.
 namespace PlumVerif.C20
 
 /-- "differ": numbers by more than 0.1 (sixteenths: 10·|a−b| > 16); parameters when an update
-is pending or (value, min, max) changed; anything else when not equal -/
+is pending or (value, min, max) changed; a value following a PARAMETER is compared the way
+`Parameter.__eq__` does (the parameter's value against `int()` of a number, 1 / 0 for "on" / "off");
+anything else when not equal -/
 def differs : Val → Val → Bool
   | .param v mn mx _, .param v' mn' mx' p' => p' || v != v' || mn != mn' || mx != mx'
+  -- a parameter against a plain value: the parameter's value against the integer part of the number / on = 1, off = 0
+  | .param v _ _ _, y => match y.paramNorm with | some n => v != n | Option.none => true
   | x, y =>
     match x.numOf, y.numOf with
     | some a, some b => decide (16 < 10 * (a - b).natAbs)   -- numbers (True / False count as 1 / 0)
@@ -81,6 +85,14 @@ def expectDelta (pre : List Call) (_os : List Out) (c : Call) : Out :=
       match d, c.v with
       | .list a, .list b => .deliver (.list (b.filter fun x => !a.contains x))
       | .param .., .param .. => .raised
+      -- mixed parameter / plain value (see `differs`): number − Parameter is not defined (raises, like F4);
+      -- Parameter − number is the parameter's value minus the integer part of the number
+      | .param .., .num _ => .raised
+      | .param .., .bool _ => .raised
+      | .param .., _ => .skip
+      | .num n, .param v _ _ _ => .deliver (.num ((v - n.tdiv 16) * 16))
+      | .bool b, .param v _ _ _ => .deliver (.num ((v - (if b then 1 else 0)) * 16))
+      | _, .param .. => .skip
       | x, y =>
         match x.numOf, y.numOf with
         | some a, some b => .deliver (.num (b - a))
